@@ -1436,6 +1436,17 @@ func do_DELETE_DEREF(vm *Vm, i int32) error {
 }
 
 // Logic for the raise statement
+// raisable reports whether obj is an exception instance or an exception class
+func raisable(obj py.Object) bool {
+	switch x := obj.(type) {
+	case *py.Exception:
+		return true
+	case *py.Type:
+		return py.ExceptionClassCheck(x)
+	}
+	return false
+}
+
 func (vm *Vm) raise(exc, cause py.Object) error {
 	if exc == nil {
 		// raise (with no parameters == re-raise)
@@ -1451,11 +1462,18 @@ func (vm *Vm) raise(exc, cause py.Object) error {
 	} else {
 		// raise <instance>
 		// raise <type>
+		if !raisable(exc) {
+			return py.ExceptionNewf(py.TypeError, "exceptions must derive from BaseException")
+		}
 		excException := py.MakeException(exc)
 		if debugging {
 			debugf("raise: excException = %v\n", excException)
 		}
-		if cause != nil {
+		// raise ... from None leaves no cause
+		if cause != nil && cause != py.None {
+			if !raisable(cause) {
+				return py.ExceptionNewf(py.TypeError, "exception causes must derive from BaseException")
+			}
 			excException.Cause = py.MakeException(cause)
 		}
 		return excException
